@@ -279,9 +279,16 @@ func (w *world) apply(req *request, d *delivery) {
 		if s, ev := st(1); ev && s == nfsv4.NFS4_OK {
 			w.k.Probe("remove-ok")
 		}
+	case kBlobCheck:
+		w.applyBlobCheck(req, d)
+	case kCurSid:
+		w.applyOpen(req, d)
+		if !w.k.Failed() {
+			w.applyCurSid(req, d)
+		}
 	case kProbeFH:
 		s, _ := st(0)
-		leaf, ok := leafOfFH(req.fh)
+		leaf, ok := w.leafOfFH(req.fh)
 		if !ok || req.probe != "" {
 			return
 		}
@@ -600,7 +607,11 @@ func (w *world) applyOpen(req *request, d *delivery) {
 		harness("GETFH after a successful OPEN failed")
 	}
 	fh := d.res.Resarray[base+2].(*nfsv4.NfsResop4_OP_GETFH).Opgetfh.(*nfsv4.Getfh4res_NFS4_OK).Resok4.Object
-	leaf, ok := leafOfFH(fh)
+	if bl := w.blobByName(req.name); bl != nil && req.of == nil && !bytes.Equal(fh, bl.fh) {
+		w.violate("wrong-file-handle", fmt.Sprintf("%s request#%d [%s]: OPEN of %s (file#%d) returned file handle %x, but that file's handle is %x (%s)", c.name, req.id, req.desc, req.name, bl.id, fh, bl.fh, w.describeFH(fh)))
+		return
+	}
+	leaf, ok := w.leafOfFH(fh)
 	if !ok || leaf >= w.nLeaves() {
 		harness("OPEN returned file handle %x that does not belong to any file created so far", fh)
 	}
@@ -682,3 +693,109 @@ func (w *world) applyLock(req *request, d *delivery) {
 }
 
 var _ = bytes.Equal
+
+func (w *world) blobByName(name string) *countingLeaf {
+	if w.blobs == nil || name == "" {
+		return nil
+	}
+	for _, l := range w.blobs.leaves {
+		if l.blob.name == name {
+			return l
+		}
+	}
+	return nil
+}
+
+func (w *world) describeFH(fh []byte) string {
+	if leaf, ok := w.leafOfFH(fh); ok {
+		return fmt.Sprintf("the handle of file#%d", leaf)
+	}
+	return "no file's handle"
+}
+
+// applyBlobCheck: a blob file looked up by name must have the handle made of
+// its identifiers, whatever was allocated or resolved since; that handle must
+// lead to the file; reading through either must return the file's contents.
+func (w *world) applyBlobCheck(req *request, d *delivery) {
+	c := req.cl
+	bl := req.blob
+	base := req.base
+	if req.name != "" {
+		// PUTROOTFH LOOKUP GETFH READ
+		if st, ev := statusAt(d.res, base+1); !ev || st != nfsv4.NFS4_OK {
+			if ev {
+				w.violate("blob-not-found", fmt.Sprintf("%s request#%d [%s]: LOOKUP failed with %s", c.name, req.id, req.desc, statName(st)))
+			}
+			return
+		}
+		if st, ev := statusAt(d.res, base+2); !ev || st != nfsv4.NFS4_OK {
+			return
+		}
+		fh := d.res.Resarray[base+2].(*nfsv4.NfsResop4_OP_GETFH).Opgetfh.(*nfsv4.Getfh4res_NFS4_OK).Resok4.Object
+		if !bytes.Equal(fh, bl.fh) {
+			w.violate("wrong-file-handle", fmt.Sprintf("%s request#%d [%s]: LOOKUP of %s (file#%d) + GETFH returned file handle %x, but that file's handle is %x (%s)", c.name, req.id, req.desc, req.name, bl.id, fh, bl.fh, w.describeFH(fh)))
+			return
+		}
+		w.k.Probe("blob-lookup-returned-the-right-handle")
+		w.checkReadData(req, d, base+3, bl.fh)
+		return
+	}
+	// PUTFH READ
+	if st, ev := statusAt(d.res, base); ev && st != nfsv4.NFS4_OK {
+		w.violate("handle-not-resolvable", fmt.Sprintf("%s request#%d [%s]: PUTFH of the handle of file#%d (%s) failed with %s", c.name, req.id, req.desc, bl.id, bl.blob.name, statName(st)))
+		return
+	}
+	w.k.Probe("blob-handle-led-to-a-file")
+	w.checkReadData(req, d, base+1, bl.fh)
+}
+
+// applyCurSid evaluates the operation that used the special "current
+// stateid" at the end of a COMPOUND (RFC 8881 section 16.2.3.1.2): OPEN makes
+// its state ID the current one, SAVEFH/RESTOREFH save and restore it along
+// with the file handle, PUTFH (any operation that sets the current file
+// handle without yielding a state ID) voids it.
+func (w *world) applyCurSid(req *request, d *delivery) {
+	c := req.cl
+	base := req.base
+	if st, ev := statusAt(d.res, base+1); !ev || st != nfsv4.NFS4_OK {
+		return
+	}
+	if st, ev := statusAt(d.res, base+2); !ev || st != nfsv4.NFS4_OK {
+		return
+	}
+	fh := d.res.Resarray[base+2].(*nfsv4.NfsResop4_OP_GETFH).Opgetfh.(*nfsv4.Getfh4res_NFS4_OK).Resok4.Object
+	of := req.o.files[string(fh)]
+	last := len(req.args.Argarray) - 1
+	st, ev := statusAt(d.res, last)
+	if of == nil || !ev {
+		return
+	}
+	valid := req.curVariant == 0 || req.curVariant == 3
+	if !valid {
+		if st == nfsv4.NFS4_OK {
+			w.violate("current-stateid-survives-putfh", fmt.Sprintf("%s request#%d [%s]: the state ID that OPEN issued for file#%d was still honoured as the current stateid after the current file handle had been replaced: %s succeeded; reply %s", c.name, req.id, req.desc, of.leaf, req.curOp, describeReply(d.res)))
+			return
+		}
+		w.k.Probe("current-stateid-void-after-putfh")
+		return
+	}
+	switch req.curOp {
+	case "READ":
+		switch {
+		case of.access&1 != 0 && st != nfsv4.NFS4_OK:
+			w.violate("valid-stateid-refused", fmt.Sprintf("%s request#%d [%s]: READ with the current stateid right after OPEN of file#%d for reading failed with %s; reply %s", c.name, req.id, req.desc, of.leaf, statName(st), describeReply(d.res)))
+		case of.access&1 == 0 && st == nfsv4.NFS4_OK:
+			w.violate("stateid-honoured-wrongly", fmt.Sprintf("%s request#%d [%s]: READ with the current stateid succeeded although file#%d is not open for reading by this open-owner", c.name, req.id, req.desc, of.leaf))
+		case st == nfsv4.NFS4_OK:
+			w.k.Probe("current-stateid-read-ok")
+			w.checkReadData(req, d, last, of.fh)
+		}
+	case "CLOSE":
+		if st != nfsv4.NFS4_OK {
+			w.violate("valid-stateid-refused", fmt.Sprintf("%s request#%d [%s]: CLOSE with the current stateid right after OPEN of file#%d failed with %s; reply %s", c.name, req.id, req.desc, of.leaf, statName(st), describeReply(d.res)))
+			return
+		}
+		w.k.Probe("current-stateid-close-ok")
+		req.o.dropFile(of)
+	}
+}
